@@ -332,6 +332,89 @@ def container_harness(ckind, dn, proto, k):
     return harness
 
 
+class _Pattern:
+    """environment model of the listener pattern ' <delegate>:<target>' that get_delegate_pattern builds with %-formatting (a C
+    boundary for a symbolic string): answers the two questions the code under test asks of it - its last character, and what
+    follows the ':' - for a SYMBOLIC target name"""
+
+    def __init__(self, delegate, target):
+        self.delegate, self.target = delegate, target
+
+    def __getitem__(self, i):
+        if i != -1:
+            raise symx.HarnessError("the pattern model only knows its last character")
+        return self.target[-1:]
+
+    def split(self, sep):
+        if sep != ":":
+            raise symx.HarnessError("the pattern model only splits at ':'")
+        return [" " + self.delegate, self.target]
+
+
+def listener_name_harness(ex):
+    """HasTraits._init_trait_delegate_listener / _trait_delegate_name (the real functions) on SYMBOLIC names: the forwarding listener
+    re-emits a notification for '<target><suffix>' on the delegate as '<deferring name><suffix>' - for every deferring name, every
+    target name and every suffix ('' for the value, '_items' for in-place changes of a container), whatever their lengths"""
+    import weakref as _wr
+    from traits.has_traits import HasTraits as _HT
+    name, target, suffix = ex.str("name"), ex.str("target"), ex.str("suffix")
+    if ex.sym:
+        for v in (name, target):
+            ex.assume(z3.And(z3.Length(v.e) >= 1, z3.Length(v.e) <= 8))
+        ex.assume(z3.Length(suffix.e) <= 6)
+        ex.assume(z3.Not(z3.SuffixOf(z3.StringVal("*"), target.e)))       # (the wildcard styles are the recorded finding)
+    else:
+        if not (1 <= len(name) <= 8 and 1 <= len(target) <= 8 and len(suffix) <= 6 and not target.endswith("*")):
+            raise symx.PathAbort("outside the stated bound")
+    registered, emitted = [], []
+
+    class _Keys:
+        """stands in for the instance dictionary entry that remembers the listener per deferring name (a dict keyed by the name:
+        hashing a symbolic string is a C boundary)"""
+
+        def __init__(self):
+            self.entries = []
+
+        def setdefault(self, key, default):
+            return self
+
+        def __setitem__(self, key, value):
+            self.entries.append((key, value))
+
+    keys = _Keys()
+
+    class Stub:
+        __slots__ = ("__weakref__",)
+        __prefix__ = ""
+        __dict__ = property(lambda self: keys)
+
+        _trait_delegate_name = _HT._trait_delegate_name
+
+        def on_trait_change(self, handler, pattern, target=None):
+            registered.append((handler, pattern))
+
+        def trait_property_changed(self, nm, old, new):
+            emitted.append(nm)
+
+    stub = Stub()
+    pattern = _Pattern("deleg", target) if ex.sym else " deleg:" + target
+    _HT._init_trait_delegate_listener(stub, name, 0, pattern)
+    ex.check(len(registered) == 1, "exactly one forwarding listener is registered")
+    if len(registered) != 1:
+        return {"n": len(registered)}
+    handler = registered[0][0]
+    handler(object(), target + suffix, 1, 2)
+    ex.check(len(emitted) == 1, "a notification of the delegate is re-emitted once")
+    if emitted:
+        got, want = emitted[0], name + suffix
+        if ex.sym:
+            ge = got.e if isinstance(got, SymStr) else z3.StringVal(got)
+            ex.check(ge == want.e, "... under the deferring attribute's name followed by the same suffix")
+        else:
+            ex.check(got == want, "... under the deferring attribute's name followed by the same suffix")
+    return {"ok": True}
+
+
 def lazy_chain_harness(ex):
     """chain of deferral whose intermediate delegates are *defaults that were never materialised* (not in __dict__)"""
     class T(HasTraits):
@@ -397,6 +480,13 @@ def cycle_harness(ex):
 def obligations(tier, build):
     obs = [Obligation("classify/prefix", classify_harness, bounds={"prefix": "any string of length <= 6 (z3 String)"},
                       leverage="the prefix string", query_timeout_ms=30000),
+           Obligation("listener-name-arithmetic", listener_name_harness,
+                      bounds={"deferring name, target name": "any strings of length 1..8 (z3 String)", "suffix": "any string of length <= 6",
+                              "pattern": "' <delegate>:<target>' through a model of its two queries (the real code builds it with %-formatting)"},
+                      stubs=["_Pattern: the listener pattern string answers pattern[-1] and pattern.split(':') for a symbolic target",
+                             "the per-name listener table of the instance dictionary records (key, value) without hashing the symbolic name",
+                             "stub object: on_trait_change / trait_property_changed record their arguments"],
+                      leverage="the three strings (z3 String): len(), slicing and concatenation in the real functions", query_timeout_ms=60000),
            Obligation("lazy-chain", lazy_chain_harness, leverage="choice feasibility only"),
            Obligation("cycle", cycle_harness, leverage="none",
                       crash_is_violation="access through a delegation cycle terminates with a Python exception, not a crash")]
